@@ -32,14 +32,18 @@ func main() {
 	c12Journal := flag.String("c12-journal", "", "internal: run a C12 history in VERIF_WORLD_DIR (under strace)")
 	c20Child := flag.Int("c20-child", -1, "internal: run one C20 pair (race build)")
 	svcReplay := flag.String("svc-replay", "", "scenario|event;event;... : replay one service history and print every state")
+	replay := flag.String("replay", "", "replay file written with a VIOLATION line: run that one case again and print what is observed (exit 1 if it still fails)")
 	flag.Parse()
 	log.SetOutput(io.Discard) // the code under test logs every import/merge
 	if t := os.Getenv("VERIF_TIER"); t != "" && *tier == "" {
 		*tier = t
 	}
 	var code int
-	if os.Getenv("VERIF_SUPERVISED") == "" && os.Getenv("VERIF_WORKER") == "" && *c20Child < 0 && *c12Journal == "" && *svcReplay == "" && *prop != "" {
+	if os.Getenv("VERIF_SUPERVISED") == "" && os.Getenv("VERIF_WORKER") == "" && *c20Child < 0 && *c12Journal == "" && *svcReplay == "" && *replay == "" && *prop != "" {
 		os.Exit(supervise(*prop, *tier))
+	}
+	if *replay != "" {
+		os.Exit(replayFile(*prop, *tier, *replay))
 	}
 	if *c20Child >= 0 {
 		os.Exit(c20.Child(*c20Child))
